@@ -343,6 +343,11 @@ func objectAsMap(val any) any {
 		v = v.Elem()
 	}
 
+	if v.Kind() == reflect.Map && v.CanInterface() {
+		// a map reached through a pointer is the same object as the map itself
+		return v.Interface()
+	}
+
 	if v.Kind() != reflect.Struct {
 		return val
 	}
